@@ -5,7 +5,7 @@ TRANSLATORS = []
 COQ_TARGETS = ['Properties_C11.vo']
 HARNESS_MODS = ['ps']
 RULE = ('same ps.run cases as C10 but with fault scripts: (a) crash points - for every store/part store of the reduced C10 grid the write script [ok]*k ++ [short j] for every '
-        'write-call prefix k and every tear offset j of the next write, followed by validate and fetch on the cut medium; (b) a single failed (0) or short transfer injected at '
+        'write-call prefix k and every tear offset j of the next write, followed by validate and fetch on the cut medium; (c) the crash points of (a) again on regions whose last octet is 0xffffffff; (b) a single failed (0) or short transfer injected at '
         'every read-call and every write-call position of store, store_part, validate, fetch, fetch_part and reset.  Observation: access code of every operation, medium image after '
         'the cut, result of validate/fetch afterwards.  Non-trivial: the injected fault is reached (counted by the call position being below the number of calls of the fault-free run).')
 TRUSTED_BASE = C10.TRUSTED_BASE
@@ -43,6 +43,20 @@ def gen(rng, tier):
                 for pos in range(0, nwrites):
                     for m in (0, 1, 2):
                         yield C10.case(rng, caddr, ckind, 0, dsize, bs, [], [-1] * pos + [m], base_ops)
+    # (c) the same crash points for regions whose last octet is 0xffffffff (address + size = 2^32: every 32-bit end computation wraps)
+    for dsize in sizes:
+        for ckind in (0, 1, 2):
+            csize = 4 if ckind == 2 else 2
+            caddr = 2**32 - (csize + dsize)
+            for bs in ([-1, 2] if not big else [-1, 1, 2, 3, dsize]):
+                off = rng.randrange(dsize); n = rng.randrange(1, dsize - off + 1)
+                for store_op, lens in (((0, 11, 0, 0), [dsize, csize]), ((1, 13, off, n), [n, csize])):
+                    for k in range(len(lens) + 1):
+                        tears = range(lens[k]) if k < len(lens) else [None]
+                        for j in tears:
+                            wr = [-1] * k + ([j] if j is not None else [])
+                            ops = [(0, 5, 0, 0), store_op, (2, 0, 0, 0), (3, 0, 0, 0)]
+                            yield C10.case(rng, caddr, ckind, 0, dsize, bs, [], [-1, -1] + wr, ops)
 
 def nontrivial(c):
     return True
